@@ -68,7 +68,7 @@ RSumF(f, lo, hi) == IF lo > hi THEN R0 ELSE RAdd(f[lo], RSumF(f, lo+1, hi))
 RECURSIVE CSumSeq(_)
 CSumSeq(s) == IF s = <<>> THEN C0 ELSE CAdd(Head(s), CSumSeq(Tail(s)))
 RECURSIVE CPow(_,_)
-CPow(a, k) == IF k = 0 THEN C1 ELSE CMul(a, CPow(a, k - 1))
+CPow(a, k) == IF k = 0 THEN C1 ELSE IF k % 2 = 0 THEN LET h == CPow(a, k \div 2) IN CMul(h, h) ELSE CMul(a, CPow(a, k - 1))
 
 \* ---------- matrices [1..n -> [1..m -> Gaussian]]
 Minor(M, n, i, j) == [r \in 1..(n-1) |-> [c \in 1..(n-1) |-> M[IF r < i THEN r ELSE r+1][IF c < j THEN c ELSE c+1]]]
